@@ -2014,6 +2014,11 @@ theorem runOp_sim {P : Nat} {h1 h2 : HState} (hh : HS P h1 h2) (op : SOp) :
     case iTag =>
       rw [hh.sim.l.cur]
       exact ⟨⟨hh.sim.emit _ _, hh.stopOnFail, hh.result, hh.done⟩, Step.emit _ _ _⟩
+    case iIsCmd s =>
+      rw [hh.sim.l.cur]
+      exact ⟨⟨hh.sim.emit _ _, hh.stopOnFail, hh.result, hh.done⟩, Step.emit _ _ _⟩
+    case iMatch pat s =>
+      exact ⟨⟨hh.sim.emit _ _, hh.stopOnFail, hh.result, hh.done⟩, Step.emit _ _ _⟩
     case iNums n d =>
       rw [hh.sim.l.cur]
       split
